@@ -2,7 +2,7 @@
    Statements only; proofs in Lang/ExprProofs.v.  OPERATOR_MAP is regenerated from maps.py on
    every run, so the operator theorem is re-proved against the table the code has now. *)
 From Coq Require Import ZArith List Bool String PrimFloat.
-From Verif Require Import BGate PyVal Ast State GatesGen Unroll Spec ExprProofs CastGen CastProofs.
+From Verif Require Import BGate PyVal Ast State GatesGen Unroll Spec ExprProofs CastGen CastProofs Arr ArrProofs.
 Import ListNotations.
 Open Scope Z_scope.
 
@@ -89,11 +89,41 @@ Theorem C07_source_bool_store v sz : v <> VNone -> cast_value_gen KBool sz v = O
 Proof. intros Hv. destruct v; try reflexivity. congruence. Qed.
 Print Assumptions C07_source_bool_store.
 
+(* array elements: an element write followed by a read of the same index yields the written value, in any
+   number of dimensions, and leaves every other cell as it was *)
+Theorem C07_array_cell_read_after_write is a a' c v :
+  arr_set_scalar a (elem_ix is) v = Some a' -> arr_get a (elem_ix is) = Some (ALeaf c) ->
+  arr_get a' (elem_ix is) = Some (ALeaf (Some v)).
+Proof. exact (arr_cell_read_after_write is a a' c v). Qed.
+Print Assumptions C07_array_cell_read_after_write.
+
+Theorem C07_array_write_leaves_other_cells is js a a' v :
+  List.length js = List.length is -> js <> is -> Forall (fun j => 0 <= j) js ->
+  arr_set_scalar a (elem_ix is) v = Some a' -> arr_get a' (elem_ix js) = arr_get a (elem_ix js).
+Proof. exact (arr_elem_write_frame is js a a' v). Qed.
+Print Assumptions C07_array_write_leaves_other_cells.
+
+(* slices: the cells selected by start:step:end (step > 0) are start, start+step, ... up to the inclusive end *)
+Theorem C07_array_slice_positions start stop step fuel x : 0 < step ->
+  (In x (slice_positions start stop step fuel) -> exists n, 0 <= n /\ x = start + n * step /\ x < stop) /\
+  (forall n, 0 <= n -> x = start + n * step -> x < stop -> (Z.to_nat n < fuel)%nat -> In x (slice_positions start stop step fuel)).
+Proof. exact (slice_positions_spec start stop step fuel x). Qed.
+Print Assumptions C07_array_slice_positions.
+
+(* an element index is accepted exactly when it lies inside the dimension *)
+Theorem C07_array_index_checked i d s :
+  analyze_indices [IExpr (ELit (VInt i))] (Some [d]) s =
+  if (0 <=? i) && (i <? d) then Ok ([(i, i, 1)], s) else Err EValidation.
+Proof. exact (analyze_index_literal i d s). Qed.
+Print Assumptions C07_array_index_checked.
+
 (* non-vacuity and the boundary cases named in the property *)
 Example C07_examples :
   cast_value KUint (Some 4) (VInt 17) = Ok (VInt 1) /\ cast_value KUint (Some 4) (VInt (-1)) = Ok (VInt 15) /\
   cast_value KInt (Some 4) (VInt (-8)) = Ok (VInt (-8)) /\ cast_value KInt (Some 4) (VInt 8) = Err EValidation /\
   cast_value_gen KInt (Some 4) (VInt (-8)) = Ok (VInt (-8)) /\ cast_value_gen KInt (Some 4) (VInt (-9)) = Err EValidation /\
+  arr_set_scalar (ANode [ALeaf (Some (VInt 1)); ALeaf None]) (elem_ix [1]) (VInt 7) = Some (ANode [ALeaf (Some (VInt 1)); ALeaf (Some (VInt 7))]) /\
+  slice_positions 1 (3 + 1) 2 5 = [1; 3] /\
   cast_value_gen KBool None (VFloat 0.5%float) = Ok (VBool true) /\ cast_value_gen KInt (Some 8) (VBool true) = Ok (VInt 1) /\
   spec_binop "&&" (VInt 3) (VInt 5) = Ok (VBool true) /\ py_binop OpLAnd (VInt 3) (VInt 5) = Ok (VBool true) /\
   spec_binop "+" (VBool true) (VBool true) = Ok (VInt 2).
